@@ -62,6 +62,7 @@ def run(tier):
     rule_R7(res, prog)
     rule_R8(res, prog)
     rule_R10(res, prog)
+    rule_R11(res, prog, cg)
     from rules.C17 import rule_R1w
     rule_R1w(res, prog, prop=PROP, rid="C02.R9")
     return res.finish()
@@ -824,3 +825,114 @@ def rule_R10(res, prog):
                                          "record is dropped silently and the session lives on" % (fn.relfile, ln, fn.name), file=fn.relfile, line=ln)
                         res.instance(rid, "%s:%s hsState = DONE paired with tls13ClearHsState" % (fn.name, ln), ok, finding=f_)
     res.floor(rid, 4)
+
+
+def rule_R11(res, prog, cg):
+    """Cross-direction reflection: a record sealed by one side must not open on that same side.  In TLS 1.3 the two directions
+    differ only by the label of the traffic secret (RFC 8446 7.1: "c hs traffic" / "s hs traffic", "c ap traffic" / "s ap traffic",
+    ...).  For every pair of secrets <X>Client / <X>Server written by the key-schedule derivation calls, the label sets must be
+    disjoint, the client's labels begin with "c " and the server's with "s ".  (C10.R2 compares each label with the RFC table;
+    this rule states the C02 consequence and does not need the table.)"""
+    from sa import cfgutil as cu
+    from rules.C10 import str_value
+    rid = "C02.R11"
+    res.rule(rid, "TLS 1.3 key schedule: the client and the server traffic secret of each phase are derived with different, "
+                  "direction-marked labels")
+    LABEL_ARG = {"tls13DeriveSecret": (4, 8), "psHkdfExpandLabel": (4, 9)}
+
+    def strings(fn, rd, bid, idx, e, depth=0):
+        e0 = strip(e)
+        while e0 is not None and e0.get("k") in ("cast",):
+            e0 = strip(e0["e"])
+        if e0 is None or depth > 3:
+            return None
+        sv = str_value(e0)
+        if sv is not None:
+            return {sv}
+        if e0.get("k") == "un" and e0["op"] == "&":
+            return strings(fn, rd, bid, idx, e0["e"], depth + 1)
+        if e0.get("k") == "idx":
+            return strings(fn, rd, bid, idx, e0["b"], depth + 1)
+        if e0.get("k") == "var" and "id" not in e0:
+            gv = prog.global_var(e0["n"], required=False)
+            if gv is None or "init" not in gv or any(("G", e0["n"]) in ws for ws in cg.direct_writes.values()):
+                return None
+            return strings(fn, rd, bid, idx, gv["init"], depth + 1)
+        if e0.get("k") == "var" and "id" in e0:
+            out = set()
+            for d in cu.defs_at(fn, rd, bid, idx, e0["id"]):
+                r = strings(fn, rd, d[0], d[1], d[3], depth + 1) if d[2] in ("assign", "decl") and d[3] is not None else None
+                if r is None:
+                    return None
+                out |= r
+            return out or None
+        return None
+
+    def out_field(e):
+        e = strip(e)
+        while e is not None:
+            if e.get("k") == "mem":
+                return e["f"]
+            if e.get("k") in ("un", "cast"):
+                e = strip(e["e"])
+                continue
+            if e.get("k") == "idx":
+                e = strip(e["b"])
+                continue
+            return None
+        return None
+    by_field = {}
+    for fn in sorted(prog.functions.values(), key=lambda f: f.qname):
+        if not fn.blocks or not fn.relfile.startswith("matrixssl/"):
+            continue
+        sites = cu.find_sites(fn, lambda n: n.get("k") == "call" and n.get("fn") in LABEL_ARG)
+        if not sites:
+            continue
+        rd = cu.reaching_defs(fn)
+        for (bid, idx, ln, call) in sites:
+            li, oi = LABEL_ARG[call["fn"]]
+            if len(call.get("a", [])) <= oi:
+                continue
+            of = out_field(call["a"][oi])
+            if of is None or not (of.endswith("Client") or of.endswith("Server")):
+                continue
+            vals = strings(fn, rd, bid, idx, call["a"][li])
+            by_field.setdefault(of, []).append((fn, ln, vals))
+    n = 0
+    for of in sorted(by_field):
+        if not of.endswith("Client"):
+            continue
+        peer = of[:-6] + "Server"
+        if peer not in by_field:
+            continue
+        n += 1
+        cl = set()
+        sv = set()
+        unresolved = False
+        for (fn, ln, vals) in by_field[of]:
+            if vals is None:
+                unresolved = True
+            else:
+                cl |= vals
+        for (fn, ln, vals) in by_field[peer]:
+            if vals is None:
+                unresolved = True
+            else:
+                sv |= vals
+        fn0, ln0, _ = by_field[peer][0]
+        problems = []
+        if unresolved:
+            problems.append("a label argument cannot be resolved to string constants")
+        if cl & sv:
+            problems.append("both directions use the label %s: the two secrets (and so key and IV) are equal, a record reflected to its "
+                            "sender opens there as a record of the peer" % sorted(cl & sv))
+        if any(not v.startswith("c ") for v in cl):
+            problems.append("client label %s does not start with `c `" % sorted(cl))
+        if any(not v.startswith("s ") for v in sv):
+            problems.append("server label %s does not start with `s `" % sorted(sv))
+        f_ = None
+        if problems:
+            f_ = Finding(PROP, rid, fn0.name, "traffic secrets of the two directions not separated (%s / %s)" % (of, peer),
+                         "%s:%s %s(): %s" % (fn0.relfile, ln0, fn0.name, "; ".join(problems)), file=fn0.relfile, line=ln0)
+        res.instance(rid, "%s %s / %s %s" % (of, sorted(cl), peer, sorted(sv)), not problems, finding=f_)
+    res.floor(rid, 2)
